@@ -251,6 +251,10 @@ struct PrologEpilogInfo {
     uint32_t pair_count;
   };
 
+  //! The greatest SP adjustment that can be a part of the first store / the last load (pre-index and post-index
+  //! forms, respectively), considering both single and pair forms. A greater adjustment needs a separate SUB/ADD.
+  static inline constexpr uint32_t kMaxIndexedAdjustment = 240u;
+
   Support::Array<GroupData, 2> groups;
   uint32_t size_total;
 
@@ -330,6 +334,12 @@ ASMJIT_FAVOR_SIZE Error EmitHelper::emit_prolog(const FuncFrame& frame) {
 
   uint32_t adjust_initial_offset = pei.size_total;
 
+  // Emit: 'sub sp, sp, #size' if the size of the save area cannot be encoded as a pre-index of the first store.
+  if (adjust_initial_offset > PrologEpilogInfo::kMaxIndexedAdjustment) {
+    ASMJIT_PROPAGATE(emitter->sub(sp, sp, adjust_initial_offset));
+    adjust_initial_offset = 0;
+  }
+
   for (RegGroup group : Support::enumerate(RegGroup::kGp, RegGroup::kVec)) {
     const PrologEpilogInfo::GroupData& data = pei.groups[group];
     uint32_t pair_count = data.pair_count;
@@ -398,6 +408,11 @@ ASMJIT_FAVOR_SIZE Error EmitHelper::emit_epilog(const FuncFrame& frame) {
 
   uint32_t adjust_initial_offset = pei.size_total;
 
+  // The size of the save area cannot be encoded as a post-index of the last load, 'add sp, sp, #size' follows it.
+  if (adjust_initial_offset > PrologEpilogInfo::kMaxIndexedAdjustment) {
+    adjust_initial_offset = 0;
+  }
+
   if (frame.has_stack_adjustment()) {
     uint32_t adj = frame.stack_adjustment();
     if (adj <= 0xFFFu) {
@@ -443,6 +458,10 @@ ASMJIT_FAVOR_SIZE Error EmitHelper::emit_epilog(const FuncFrame& frame) {
 
       mem.reset_offset_mode();
     }
+  }
+
+  if (adjust_initial_offset != pei.size_total) {
+    ASMJIT_PROPAGATE(emitter->add(sp, sp, pei.size_total));
   }
 
   ASMJIT_PROPAGATE(emitter->ret(x30));
